@@ -175,19 +175,31 @@ def interleaved(chk):
 def interleaved_remote(chk):
   """stage 'a' in process, stage 'b' on a worker pool fed through a RemoteIteratorQueue on the master."""
   # (workers, elements, buffer[, seconds by which every answer of the second worker is late])
-  cases = [(2, 5, 1), (1, 3, 0), (3, 6, 2), (2, 0, 1), (2, 8, 2, 0.12), (2, 6, 1, 0.12)]
+  cases = [(2, 5, 1), (1, 3, 0), (3, 6, 2), (2, 0, 1), (2, 8, 2, 0.12), (2, 12, 2, 'second-start')]
   if chk.tier == 'thorough':
     cases += [(w, n, b) for w in (1, 2, 3) for n in (1, 2, 7) for b in (0, 1, 3)]
   for case in cases:
     workers, n, buf = case[:3]
     late = case[3] if len(case) > 3 else 0
-    name = f'interleaved remote workers={workers} n={n} buffer={buf}' + (f' answers of worker 2 late by {late}s' if late else '')
+    name = f'interleaved remote workers={workers} n={n} buffer={buf}' + (f' slow answers: {late}' if late else '')
     p = lib.two_stage_pipeline(n)
     ref = p.make().iterate()
     ref_outs = sorted(ref)
     ref_agg = ref.agg_result
     with dist.cluster(workers, heartbeat_threshold=1e7) as c:
-      if late:
+      if late == 'second-start':
+        # only the acknowledgement of the second "start enqueueing" request (return_immediately) is slow: the first worker
+        # can go through the whole input meanwhile
+        from harness import fakecourier
+        starts = []
+
+        def slow_second_start(address, method, kwargs):
+          if method == 'maybe_make' and kwargs.get('return_immediately'):
+            starts.append(address)
+            return 1.0 if len(starts) == 2 else 0
+          return 0
+        fakecourier.BOARD.reply_delay['*'] = slow_second_start
+      elif late:
         from harness import fakecourier
         fakecourier.BOARD.reply_delay[c.names[1]] = late
       orch = c.mods.orchestrate
